@@ -25,7 +25,7 @@ def gen_doc(rng, min_pages=1, max_blocks=9, big=False):
     rules = [f'@page{{size:{width}px {height}px;margin:{margin}px;bleed:{bleed}}}']
     if rng.random() < 0.4:
         rules.append(f'@page :first{{bleed:{rng.choice(BLEEDS)} {rng.choice(BLEEDS)}}}')
-    if rng.random() < 0.4:
+    if rng.random() < 0.6:
         rules.append(f'@page wide{{size:{width + 40.5}px {height + 20}px;bleed:{rng.choice(BLEEDS)}}}')
     if rng.random() < 0.3:
         rules.append(f'@page :left{{margin-left:{margin + 2.25}px}}')
@@ -43,7 +43,7 @@ def gen_doc(rng, min_pages=1, max_blocks=9, big=False):
         style = []
         if i in breaks:
             style.append('break-before:page')
-        if rng.random() < 0.15:
+        if rng.random() < 0.25:
             style.append('page:wide')
         kind = rng.choice(['h1', 'h2', 'h3', 'h4', 'p', 'p', 'p', 'div'])
         if rng.random() < 0.2:
